@@ -112,6 +112,10 @@ var Texts = map[string]string{
   container c1 { uses g; }
   list c2 { key x; uses g; }
 }`,
+	// a submodule of fm1 that fm2 includes as well (it does not belong to fm2: an error, in every run and order)
+	"fm1": `module fm1 { namespace "urn:fm1"; prefix fm1; include fs; leaf own1 { type string; } }`,
+	"fm2": `module fm2 { namespace "urn:fm2"; prefix fm2; include fs; leaf own2 { type string; } }`,
+	"fs":  `submodule fs { belongs-to fm1 { prefix fm1; } leaf y { type string; } }`,
 	// builds as a container node with typedefs of a type that is not built in, refused by the set because it is not a module
 	"x-top-level-container": `container stray { typedef st { type other; } typedef st2 { type p:other; } leaf l { type st; } }`,
 	// builds as a grouping node, refused by the set because it is not a module
@@ -172,7 +176,7 @@ func Dump(ms *yang.Modules, errs []error) string {
 		if m, err := ms.FindModuleByNamespace(ns); err == nil {
 			fmt.Fprintf(&sb, "namespace %s -> %s\n", ns, m.FullName())
 		} else {
-			fmt.Fprintf(&sb, "namespace %s -> error\n", ns)
+			fmt.Fprintf(&sb, "namespace %s -> error %v\n", ns, err)
 		}
 	}
 	if len(errs) > 0 {
